@@ -57,6 +57,26 @@ def run(rec):
                                       {'op': c.name})
                     for l1, l2 in zip(arr.legs, deep.legs):
                         pass
+                # the result of a non-in-place operation is an independent object: writing into it must not reach any operand
+                import tenpy.linalg.np_conserved as npc_
+                res = c.result
+                # (gauge_total_charge, add_trivial_leg, unary_blockwise/complex_conj, sort_legcharge are documented to return *shallow* copies)
+                documented_shallow = any(t in c.name for t in ('gauge_total_charge', 'add_trivial_leg', 'squeeze', 'unary_blockwise', 'complex_conj', 'sort_legcharge'))
+                if isinstance(res, npc_.Array) and c.inplace_on is None and res.dtype.kind in 'fc' and not documented_shallow \
+                        and not any(res is a for a, _, _ in state.get('ops', [])):
+                    try:
+                        res.iscale_prefactor(3.)
+                        res += res
+                        if res.rank and all(s_ > 0 for s_ in res.shape):
+                            res[tuple([0] * res.rank)] = 12345.
+                        wrote = True
+                    except Exception:
+                        wrote = False     # (e.g. element not compatible with the charges: no write happened through this route)
+                    for arr, shallow, deep in state.get('ops', []):
+                        if not np.array_equal(arr.to_ndarray(), deep.to_ndarray()):
+                            rec.violation(f'{c.name}:result-aliases-operand', 'in-place operations on the result changed an operand',
+                                          {'op': c.name, 'mod': chinfo.mod.tolist()})
+                            break
                 rec.case((op.__name__, chinfo.mod.tobytes(), k), any(len(a._data) >= 2 for a, _, _ in state.get('ops', [])),
                          sample={'op': c.name} if k == 0 and ci == 1 else None)
     make_valid_frame(rec, rng)
